@@ -70,6 +70,17 @@ class Model (object):
     else: names = set(explicit)
     return frozenset(names) | frozenset(handler_components)
 
+  @staticmethod
+  def listen_options (listen_args, component):
+    """Extra addListeners() options a sink asked for `component` in one listen_to_dependencies call:
+    its own entry listen_args[component], completed by the wildcard entry listen_args[None] ("add it to
+    all") for every option the own entry does not set.  Priority defaults to 0."""
+    listen_args = listen_args or {}
+    opts = dict(listen_args.get(None, {}))
+    opts.update(listen_args.get(component, {}))
+    opts.setdefault("priority", 0)
+    return opts
+
   def invoked (self, wid, registry):
     """A waiter ran; registry = names registered on the real core at that instant."""
     if wid not in self.declared:
